@@ -153,18 +153,12 @@ def xStep (d : XState) (j : Json) : XState × Json :=
     let evs := (getArr j "events").filterMap pEvent
     if evs.length != (getArr j "events").length then (d, Json.str "bad-event") else
     if !baseAllowed { sys := d.x.sys, hidden := d.hidden } (.recv evs) then (d, Json.mkObj [("enabled", toJson false)]) else
-    -- Bool mirror of `fifoStep` (SchedInvDefs): per task, the batch takes a prefix of that task's pending notices
-    let fifoOk : Bool := match takeEvents d.x.sys.env.pending evs with
-      | none => false
-      | some pend =>
-        let tasks := (d.x.sys.env.pending.filterMap (fun ev => match ev with | .pubW _ ds => some ds.task | _ => none)).eraseDups
-        tasks.all (fun t => evs.filterMap (noticeOf t) ++ pend.filterMap (noticeOf t) == d.x.sys.env.pending.filterMap (noticeOf t))
     match stepX semStr d.job d.cl d.cm d.x (.base (.recv evs)) with
     | none => (d, Json.mkObj [("enabled", toJson false)])
     | some x1 =>
       let d := drainX { d with x := x1 } (.base .notify1) (evs.length + 1)
       let d := tryStep d (.base .endNotify)
-      (d, fullX d [("enabled", toJson true), ("fifoStep", toJson fifoOk)])
+      (d, fullX d [("enabled", toJson true)])
   | _ => (d, Json.str "bad-op")
 
 def main : IO Unit :=
